@@ -65,8 +65,10 @@ def run(ctx, known, built):
     if lines and lines[-1] == "":
         lines.pop()
     rows = [json.loads(l) for l in open(os.path.join(out, "oracle.jsonl")) if l.strip()]
-    # two case lines (pristine, corrupted) per row
-    per = 448
+    # lines: "<row>\t<variant>\t<LCase ...>"
+    meta = [ln.split("\t", 2)[:2] for ln in lines]
+    lines = [ln.split("\t", 2)[2] for ln in lines]
+    per = 500
     shards = [lines[i:i + per] for i in range(0, len(lines), per)]
     files = {}
     for k, shl in enumerate(shards):
@@ -97,14 +99,16 @@ def run(ctx, known, built):
         nok += 1
         for j in parse_term(vals[0]):
             li = k * per + j
-            r = rows[li // 2]
+            r = rows[int(meta[li][0])]
             ctx.disagreements.append({
                 "what": "model of Font::load_requested_data differs from the implementation",
-                "seed": ctx.seed, "case": r["case"], "variant": "corrupted" if li % 2 else "pristine",
+                "seed": ctx.seed, "case": r["case"], "variant": meta[li][1],
                 "scenario": r, "case_line": lines[li][:600]})
         for j in parse_term(vals[1]):
             li = k * per + j
-            r = rows[li // 2]
+            if meta[li][1] == "requested-damaged":
+                continue
+            r = rows[int(meta[li][0])]
             ctx.disagreements.append({
                 "what": "the model's partial load is not the restricted full load (theorem C17_restrict would be false)",
                 "seed": ctx.seed, "case": r["case"], "scenario": r})
@@ -118,11 +122,11 @@ def run(ctx, known, built):
                    "model and implementation differ")
     nontrivial = {(r["ufo"], r["mask"], r["shape"]) for r in rows if r["n_unrequested"] > 0}
     ctx.cov.update({
-        "evaluations": 2 * len(rows),
+        "evaluations": len(lines),
         "distinct_nontrivial": len(nontrivial),
         "rule": "one evaluation = one Font::load_requested_data call (and one run of the Coq model) on a generated "
                 "format-3 UFO: every (UFO, switch mask 0..63, filter shape) pristine and once more with every "
-                "un-requested file replaced by garbage or removed. Non-trivial = at least one file belongs to an "
+                "un-requested file replaced by garbage or removed, and for a third of them once more with one requested file damaged (error variants must agree). Non-trivial = at least one file belongs to an "
                 "un-requested part; distinct by (UFO, mask, filter shape).",
         "exhaustive": True,
         "exhaustive_scope": "all 64 switch combinations x 7 filter shapes for every generated UFO",
@@ -132,9 +136,10 @@ def run(ctx, known, built):
             "filter_shapes": dict(collections.Counter(r["shape"] for r in rows)),
             "pristine_outcomes": dict(collections.Counter(r["pristine"].split(" ")[0].strip("(") for r in rows)),
             "corrupted_outcomes": dict(collections.Counter(r["corrupted"].split(" ")[0].strip("(") for r in rows)),
+            "requested_file_damaged_outcomes": dict(collections.Counter(r["damaged"].split(" ")[0].strip("(") for r in rows if r["damaged"] != "-")),
             "unrequested_files_corrupted_total": sum(r["n_unrequested"] for r in rows),
         },
-        "traces_validated_against_impl": 2 * len(rows),
+        "traces_validated_against_impl": len(lines),
     })
     for r in rows[:3]:
         ctx.samples.append({k: r[k] for k in ("case", "ufo", "mask", "shape", "pristine", "corrupted", "n_unrequested")})
